@@ -228,6 +228,8 @@ static Token *tokenize_at(char *buf, Token *tmpl) {
   file->line_delta = tmpl->file->line_delta;
 
   Token *tok = tokenize(file);
+  tok->at_bol = tmpl->at_bol;
+  tok->has_space = tmpl->has_space;
   for (Token *t = tok; t; t = t->next) {
     t->line_no = tmpl->line_no;
     t->line_delta = tmpl->line_delta;
@@ -533,6 +535,19 @@ static bool has_varargs(MacroArg *args) {
   return false;
 }
 
+// Append a copy of the tokens of `arg`, written in place of the
+// parameter token `param`, whose spacing the first copy takes over.
+static Token *copy_arg(Token *cur, Token *arg, Token *param) {
+  Token *first = cur;
+  for (Token *t = arg; t->kind != TK_EOF; t = t->next)
+    cur = cur->next = copy_token(t);
+  if (first != cur) {
+    first->next->at_bol = param->at_bol;
+    first->next->has_space = param->has_space;
+  }
+  return cur;
+}
+
 // Replace func-like macro parameters with given arguments and process
 // the ## operators. For an object-like macro there are no parameters
 // and # is an ordinary token.
@@ -563,8 +578,7 @@ static Token *subst(Token *tok, MacroArg *args, bool is_objlike) {
           // __VA_ARGS__ is an operand of ##, so it is substituted
           // without being macro-expanded first.
           cur = cur->next = copy_token(tok);
-          for (Token *t = arg->tok; t->kind != TK_EOF; t = t->next)
-            cur = cur->next = copy_token(t);
+          cur = copy_arg(cur, arg->tok, tok->next->next);
           tok = tok->next->next->next;
         }
         continue;
@@ -602,8 +616,7 @@ static Token *subst(Token *tok, MacroArg *args, bool is_objlike) {
       if (arg->tok->kind == TK_EOF) {
         MacroArg *arg2 = find_arg(args, rhs);
         if (arg2) {
-          for (Token *t = arg2->tok; t->kind != TK_EOF; t = t->next)
-            cur = cur->next = copy_token(t);
+          cur = copy_arg(cur, arg2->tok, rhs);
         } else {
           cur = cur->next = copy_token(rhs);
         }
@@ -611,8 +624,7 @@ static Token *subst(Token *tok, MacroArg *args, bool is_objlike) {
         continue;
       }
 
-      for (Token *t = arg->tok; t->kind != TK_EOF; t = t->next)
-        cur = cur->next = copy_token(t);
+      cur = copy_arg(cur, arg->tok, tok);
       tok = tok->next;
       continue;
     }
@@ -666,6 +678,8 @@ static bool expand_macro(Token **rest, Token *tok) {
   if (m->handler) {
     *rest = m->handler(tok);
     (*rest)->next = tok->next;
+    (*rest)->at_bol = tok->at_bol;
+    (*rest)->has_space = tok->has_space;
     return true;
   }
 
